@@ -310,7 +310,7 @@ class Run:
         return os.path.join(self.repo, ".git", "ai")
 
     def proj_wl_ini(self):
-        empty_ent = {"has": False, "snap": [], "attr": [], "va": [], "touched": False}
+        empty_ent = {"has": False, "snap": [], "attr": [], "va": [], "vaset": False, "touched": False}
         wl = [{"ent": {f: dict(empty_ent) for f in self.files}, "ai": False, "sess": []} for _ in range(self.maxc + 1)]
         ini = [{f: [] for f in self.files} for _ in range(self.maxc + 1)]
         wdir = os.path.join(self.ai_dir(), "working_logs")
@@ -354,6 +354,7 @@ class Run:
                                 ent["attr"] = self._attrs_to_map(la)
                                 if e.get("line_attributions") or e.get("attributions"):
                                     ent["va"] = ent["attr"]
+                                    ent["vaset"] = True
                                 nonhuman = any(a["author_id"] != "human" for a in e.get("line_attributions", [])) or \
                                     any(a["author_id"] != "human" for a in e.get("attributions", []))
                                 if is_ai or nonhuman:
@@ -516,8 +517,22 @@ class Run:
                 payload["will_edit_filepaths"] = paths
         self.gitai_cmd(["checkpoint", "agent-v1", "--hook-input", json.dumps(payload)])
 
-    def act_Add(self, act):
-        self.wrapped(["add", "--", self.world.path(act["f"])])
+    def act_Stage(self, act):
+        """index copy of f := content c (whole file through the wrapped `git add`, a hunk through plumbing)"""
+        f = act["f"]
+        path = self.world.path(f)
+        if act.get("kind") == "file":
+            if os.path.isfile(self.abspath(f)):
+                self.wrapped(["add", "--", path])
+            else:
+                self.wrapped(["rm", "-q", "--cached", "--", path])
+            return
+        data = self.world.render(act["c"])
+        if data is None:
+            self.plain(["update-index", "--force-remove", "--", path])
+            return
+        blob = self.plain(["hash-object", "-w", "--stdin"], inp=data).stdout.decode().strip()
+        self.plain(["update-index", "--add", "--cacheinfo", "100644,%s,%s" % (blob, path)])
 
     def act_Commit(self, act):
         mode = act["mode"]
